@@ -29,6 +29,27 @@ def parser():
     return _state['p']
 
 
+def reference():
+    if 'r' not in _state:
+        from data.syntax.py_rules import py_rules
+        from mc.oracle.cfg_ref import Recognizer
+        _state['r'] = Recognizer(py_rules())
+    return _state['r']
+
+
+def in_grammar(text: str):
+    """True/False by the reference recogniser over the real tokenizer's tokens; None if the text has no token list."""
+    from rogw.tranp.errors import Errors
+    try:
+        toks = [t.string for t in pool.with_timeout(5, lambda: parser().tokenizer.parse(text))]
+    except (Errors.Error, pool.CaseTimeout, Exception):  # noqa  lexical errors are judged on the engine's own path
+        return None
+    try:
+        return pool.with_timeout(5, lambda: reference().accepts(toks, 'entry'))
+    except (pool.CaseTimeout, RecursionError):
+        return None
+
+
 def op_classes(text: str) -> str:
     ops = sorted(set(re.findall(r'\b(?:or|and|not|in|is|if|else|lambda|for|while|def|elif|return|raise)\b|:=|[<>=!]=|[-+*/%<>.\[\](){}]', text)))
     return ' '.join(ops)[:60]
@@ -38,7 +59,9 @@ def judge(text: str, derived: bool):
     """Returns ('ok', n) | ('skip', why) | ('viol', sig, what)."""
     from rogw.tranp.errors import Errors
     try:
-        want = canon_own.canon_py(text)
+        want = _state['want'][text] if text in _state.get('want', {}) else canon_own.canon_py(text)
+        if text in CANARIES:
+            _state.setdefault('want', {})[text] = want
         py_ok = True
     except (SyntaxError, ValueError, RecursionError):
         py_ok = False
@@ -51,6 +74,8 @@ def judge(text: str, derived: bool):
     except Errors.Syntax as e:
         if derived:
             return ('viol', ['derived-sentence-rejected', op_classes(text)], f'{text!r} is derivable from the shipped grammar but the engine rejects it: {str(e)[:200]}')
+        if in_grammar(text) is True:
+            return ('viol', ['derivable-sentence-rejected', op_classes(text)], f'{text!r}: its token sequence is derivable from the shipped grammar (reference recogniser) but the engine rejects it: {str(e)[:200]}')
         if py_ok:
             return ('skip', 'outside-own-grammar')
         # error quality: token of the input + existing line
@@ -80,20 +105,71 @@ def judge(text: str, derived: bool):
         return ('viol', ['raw-exception', 'RecursionError', 'derived' if derived else 'mutated'], f'{text!r}: RecursionError')
     except Exception as e:  # noqa
         return ('viol', ['raw-exception', type(e).__name__, 'derived' if derived else 'mutated'], f'{text!r}: {type(e).__name__}: {str(e)[:160]}')
+    if in_grammar(text) is False:
+        return ('viol', ['accepted-outside-grammar', op_classes(text)], f'{text!r}: its token sequence is not derivable from the shipped grammar (reference recogniser) but the engine accepts it: {tree.simplify()!r}'[:600])
     if not py_ok:
         return ('skip', 'cpython-rejects')
     try:
         got = canon_own.canon_own(tree.simplify())
     except canon_own.Shape as e:
         return ('viol', ['tree-shape', str(e)[:40]], f'{text!r}: {e}; tree {tree.simplify()!r}')
+    except (ValueError, TypeError, KeyError, IndexError) as e:
+        return ('viol', ['tree-shape', type(e).__name__], f'{text!r}: the tree cannot be read ({type(e).__name__}: {e}); tree {tree.simplify()!r}'[:600])
     if got != want:
         dc = canon_ast.diff_class(want, got) or ('unknown',)
         return ('viol', ['tree-differs'] + [str(x) for x in dc], f'{text!r}: {canon_ast.first_diff(want, got)}\n   cpython: {want!r}\n   engine:  {got!r}')
     return ('ok', 1)
 
 
+CANARIES = ['x = f(a, b)[0]\n', 'if a:\n    b\nc\n']   # brackets + a block indented differently from every other sentence (tabs)
+MAX_VIOL_PER_BATCH = 20
+
+
+CANARY_TOKENS = {
+    'x = f(a, b)[0]\n': ['x', '=', 'f', '(', 'a', ',', 'b', ')', '[', '0', ']', '\n'],
+    'if a:\n    b\nc\n': ['if', 'a', ':', '\n', '\\INDENT', 'b', '\n', '\\DEDENT', 'c', '\n'],
+}
+
+
+def canary_tokens(c: str):
+    from rogw.tranp.errors import Errors
+    try:
+        got = [t.string for t in pool.with_timeout(5, lambda: parser().tokenizer.parse(c))]
+    except (Errors.Error, pool.CaseTimeout) as e:
+        return f'{type(e).__name__}'
+    return None if got == CANARY_TOKENS[c] else f'tokens {got!r}'
+
+
 def worker(batch):
-    return [(t, d, judge(t, d)) for t, d in batch]
+    """Judges every sentence.  After every sentence that is not a derived one (mutated / lexeme layer: may be
+    unbalanced, oddly indented, rejected half-way) the canaries are handled again by the same process: the verdict
+    on a sentence must not depend on what was parsed before it (histories of length 2).  Level 2 = full parse and
+    tree comparison of every canary, level 1 = token list of every canary."""
+    out = []
+    nv = 0
+    for t, d, level in batch:
+        if nv > MAX_VIOL_PER_BATCH:
+            break   # the run has failed already; do not spend 5 s timeouts on the rest of the batch
+        out.append((t, d, judge(t, d)))
+        nv += out[-1][2][0] == 'viol'
+        for c in CANARIES if level else []:
+            if level >= 2:
+                j = judge(c, True)
+                bad = j[2] if j[0] == 'viol' else None
+                sig = j[1][:1] if bad else []
+            else:
+                bad = canary_tokens(c)
+                sig = ['tokens']
+            if bad:
+                out.append((c, True, ('viol', ['history-dependent'] + sig, f'after parsing {t!r}: {c!r}: {bad}', t)))
+                nv += 1
+                parser_reset()
+                break
+    return out
+
+
+def parser_reset():
+    _state.pop('p', None)
 
 
 def mutations(tokens):
@@ -104,6 +180,23 @@ def mutations(tokens):
             if m != tokens[i]:
                 yield tokens[:i] + (m,) + tokens[i + 1:]
             yield tokens[:i] + (m,) + tokens[i:]
+
+
+EXT = ['0', '5', '.', 'y', '_', '<', '>', '=', '!', '-', '*']
+CONTEXTS = ['{}\n', 'x = {}\n', 'f({})\n', 'a + {} * b\n', '[{}, {}]\n', 'a.{}\n', 'if {}:\n\ta\n', 'a {} b\n', 'not {}\n']
+
+
+def lexemes(rules):
+    """Every terminal sample and every string terminal of the grammar, extended by one character on either side."""
+    from mc.oracle.cfg_ref import Recognizer
+    base = set(x for v in gramsent.SAMPLES.values() for x in v) | {'0.5', '10', 'None'}
+    base |= {k for k in Recognizer(rules).keywords if not k.startswith('\\') and k.strip()}
+    out = set(base)
+    for b in sorted(base):
+        for c in EXT:
+            out.add(b + c)
+            out.add(c + b)
+    return sorted(out)
 
 
 def run(ctx):
@@ -119,20 +212,26 @@ def run(ctx):
         derived.setdefault(toks + ('\n',), c)
     for c, toks in gramsent.derive(rules, 'statement', n_s):
         derived.setdefault(toks, c)
-    sents = [(gramsent.render(t), True) for t in derived]
+    sents = [(gramsent.render(t), True, 0) for t in derived]
     ctx.log(f'{len(sents)} derived sentences')
     # mutation layer on the sentences with <= 1 deviation
     low = [t for t, c in derived.items() if c <= (1 if ctx.quick else 1)]
-    muts = set()
+    muts = {}
     for t in low:
         for m in mutations(t):
             if m not in derived:
-                muts.add(m)
-    mut_sents = [(gramsent.render(m), False) for m in sorted(muts)]
+                muts[m] = min(muts.get(m, 9), derived[t])
+    # parse-level canaries after every mutation of a 0-deviation sentence, token-level canaries after all others
+    mut_sents = [(gramsent.render(m), False, 2 if muts[m] == 0 else 1) for m in sorted(muts)]
     if ctx.quick:
         mut_sents = mut_sents[::3]
     ctx.log(f'{len(mut_sents)} mutated sentences')
-    allc = sents + mut_sents
+    lex = lexemes(rules)
+    lex_sents = sorted(set(c.format(*([x] * c.count('{}'))) for x in lex for c in CONTEXTS))
+    have = set(x[0] for x in sents)
+    lex_sents = [(t, False, 2 if t.startswith('x = ') else 1) for t in lex_sents if t not in have]
+    ctx.log(f'{len(lex_sents)} lexeme-boundary sentences ({len(lex)} lexemes x {len(CONTEXTS)} contexts)')
+    allc = sents + mut_sents + lex_sents
     res = pool.pmap(worker, pool.chunked(allc, 400), workers=ctx.workers, rotate=ctx.seed)
     counts = {}
     nontriv = 0
@@ -142,12 +241,13 @@ def run(ctx):
             if j[0] == 'ok':
                 nontriv += 1
             if j[0] == 'viol':
-                ctx.violation(j[1], j[2], {'text': text, 'derived': d})
+                ctx.violation(j[1], j[2], {'text': text, 'derived': d, 'prev': j[3] if len(j) > 3 else None})
     return {
         'evaluations': len(allc),
         'distinct_nontrivial': nontriv,
-        'rule': f'all derivations of expr with <= {n_e} deviations and of statement with <= {n_s} deviations from the shipped py_rules() (deviation = one repeat instance, one present optional, a non-first identifier/literal sample, re-entering a symbol under expansion, a heavier atom alternative; every operator sample is free); terminals {gramsent.SAMPLES}; mutation layer: every single token deletion/replacement/insertion ({len(MUT_TOKENS)} tokens) of the sentences with <= 1 deviation{" (every third in quick)" if ctx.quick else ""}; non-trivial = accepted by both parsers and compared',
-        'samples': [s for s, _ in sents[:3]] + [s for s, _ in sents[len(sents) // 2: len(sents) // 2 + 2]] + [s for s, _ in mut_sents[:2]],
+        'rule': f'all derivations of expr with <= {n_e} deviations and of statement with <= {n_s} deviations from the shipped py_rules() (deviation = one repeat instance, one present optional, a non-first identifier/literal sample, re-entering a symbol under expansion, a heavier atom alternative; every operator sample is free); terminals {gramsent.SAMPLES}; mutation layer: every single token deletion/replacement/insertion ({len(MUT_TOKENS)} tokens) of the sentences with <= 1 deviation{" (every third in quick)" if ctx.quick else ""}; after every mutated/lexeme sentence the canaries {CANARIES} are handled again by the same process (history of length 2: the verdict must not depend on the previous input): full parse + tree comparison after every mutation of a 0-deviation sentence and every "x = <lexeme>" sentence, token list after all others; lexeme-boundary layer: every terminal sample and string terminal extended by one character of {EXT} on either side, in {len(CONTEXTS)} contexts; every accepted/rejected verdict of the mutation and lexeme layers is compared with an independent context-free reference recogniser over the shipped Rules (mc/oracle/cfg_ref.py); non-trivial = accepted by both parsers and compared',
+        'samples': [x[0] for x in sents[:3]] + [x[0] for x in sents[len(sents) // 2: len(sents) // 2 + 2]] + [x[0] for x in mut_sents[:2]],
+        'history_pairs': {'parse_level': sum(1 for x in allc if x[2] == 2) * len(CANARIES), 'token_level': sum(1 for x in allc if x[2] == 1) * len(CANARIES)},
         'outcomes': counts,
         'exhaustive': True,
         'bound': f'expr <= {n_e} deviations, statement <= {n_s}',
@@ -155,6 +255,8 @@ def run(ctx):
 
 
 def replay(ctx, data):
+    if data.get('prev') is not None:
+        judge(data['prev'], False)
     j = judge(data['text'], data.get('derived', False))
     if j[0] == 'viol':
         ctx.violation(j[1], j[2], data)
